@@ -110,6 +110,12 @@ def operations(rng, sr, x, other, vec):
     if x.blocks or True:
         ops.append(('item_of_full_contraction', lambda a: complex(sr.tensordot(a, oc, axes=n, preserve_array=True, mode='blockwise').item())
                     if sr.tensordot(a, oc, axes=n, preserve_array=True, mode='blockwise').blocks else 0j))
+    if n == 0 and x.blocks:
+        # scalar conversions of a rank-0 array read its single block
+        ops.append(('item', lambda a: complex(a.item())))
+        ops.append(('complex', lambda a: complex(a)))
+        ops.append(('float', lambda a: float(a) if 'complex' not in str(a.dtype) else complex(a)))
+        ops.append(('bool', lambda a: bool(a)))
     # reductions / elementwise functions exported by the library
     for fn in ('sum', 'max', 'min'):
         ops.append((fn, (lambda f: (lambda a: np.asarray(getattr(a, f)()).item()))(fn)))
@@ -157,7 +163,7 @@ def run(ctx):
     for k in range(n_cases):
         sym = SYMS[k % len(SYMS)]
         cplx = rng.random() < 0.25
-        nd = rng.randint(1, 3)
+        nd = rng.choice([0, 1, 1, 2, 2, 2, 3, 3])
         cms = [gen.rand_chargemap(rng, sym, maxsize=2) for _ in range(nd)]
         if nd == 2 and rng.random() < 0.4:
             cms[1] = dict(cms[0])
